@@ -319,7 +319,7 @@ theorem namedMatches_toHash {t : OType} {vs : List Val} (hw : WF t) (hreq : requ
       simp [lookup_toHash hw.nodup hi, hv]
 
 theorem named_result {t : OType} {es : List (String × Val)} {h : Val}
-    (hm : namedMatches (attrInfo t) es = true) {full : List Val}
+    (hm : namedMatches (attrInfo t) es = true) (hc : coerceOk (attrInfo t) es = true) {full : List Val}
     (hfull : (posAttrs t).map (fun a => (es.lookup a.name).getD a.implicitT) = full) :
     newNamed t es h = .ok { typ := t, values := trim (requiredCount t) (posAttrs t) full } := by
   have hfill : fillAll es (posAttrs t) = .ok full := by
@@ -331,7 +331,19 @@ theorem named_result {t : OType} {es : List (String × Val)} {h : Val}
     have := hm.2 a ha
     simpa using this
   unfold newNamed positionalFromHash
-  simp [hm, hfill]
+  simp [hm, hc, hfill]
+
+/-- the values of a well-typed positional construction, given by name, are instances of their attributes' own types -/
+theorem coerceOk_toHash {t : OType} {vs : List Val} (hw : WF t) (hall : allInst (posAttrs t) vs = true) :
+    coerceOk (attrInfo t) (toHash (posAttrs t) vs) = true := by
+  unfold coerceOk
+  simp only [List.all_eq_true, attrInfo_attrs]
+  intro a ha
+  obtain ⟨i, hi⟩ := List.getElem?_of_mem ha
+  rw [lookup_toHash hw.nodup hi]
+  cases hv : vs[i]? with
+  | none => rfl
+  | some v => exact allInst_get hall hi hv
 
 theorem C17_pos_named {t : OType} {vs : List Val} {o : Obj} (h : Val) (hw : WF t) (hn : newPos t vs = .ok o) :
     ∃ o', newNamed t (toHash (posAttrs t) vs) h = .ok o' ∧ o'.typ = t ∧
@@ -341,7 +353,7 @@ theorem C17_pos_named {t : OType} {vs : List Val} {o : Obj} (h : Val) (hw : WF t
   subst ho
   have hlen := allInst_length hall
   have hm := namedMatches_toHash hw hreq hall
-  have hres := named_result (h := h) hm (map_toHash_eq_den hw.nodup hlen)
+  have hres := named_result (h := h) hm (coerceOk_toHash hw hall) (map_toHash_eq_den hw.nodup hlen)
   have hdl : (den (posAttrs t) vs).length = (posAttrs t).length := den_length hlen
   have hden : den (posAttrs t) (trim (requiredCount t) (posAttrs t) (den (posAttrs t) vs)) = den (posAttrs t) vs := by
     rw [den_trim hw.god, den_full (by omega)]
@@ -351,11 +363,17 @@ theorem C17_pos_named {t : OType} {vs : List Val} {o : Obj} (h : Val) (hw : WF t
   · rw [equals_den hw.tailOpt hreq hk', hden]; simp
   · rw [equals_den hw.tailOpt hk' hreq, hden]; simp
 
-/-- the named constructor: every positional attribute reads back the value of its key, or its default -/
+/-- the named constructor: every positional attribute reads back the value of its key, or its default.  `hm`: the hash is
+    an instance of the init Struct; `hc`: every given value is an instance of its attribute's OWN type (the init Struct
+    writes `NotUndef[T]` as `Optional[T]` — `typeAndInit` —, so it admits an undef that the attribute type rejects; the named
+    creator then fails to coerce it: `C17_named_notundef_undef`).  For attribute types without `NotUndef` the second
+    hypothesis follows from the first (`coerceOk_of_plain`, `C17_get_named_plain`: the statement as it stood for the
+    narrower alphabet). -/
 theorem C17_get_named {t : OType} {es : List (String × Val)} {h : Val} (hw : WF t)
-    (hm : namedMatches (attrInfo t) es = true) {i : Nat} {a : Attr} (ha : (posAttrs t)[i]? = some a) :
+    (hm : namedMatches (attrInfo t) es = true) (hc : coerceOk (attrInfo t) es = true)
+    {i : Nat} {a : Attr} (ha : (posAttrs t)[i]? = some a) :
     ∃ o, newNamed t es h = .ok o ∧ get o a.name = .ok (some ((es.lookup a.name).getD a.implicitT)) := by
-  refine ⟨_, named_result hm rfl, ?_⟩
+  refine ⟨_, named_result hm hc rfl, ?_⟩
   have hlen : ((posAttrs t).map (fun a => (es.lookup a.name).getD a.implicitT)).length = (posAttrs t).length := by simp
   have hk : requiredCount t ≤ (trim (requiredCount t) (posAttrs t)
       ((posAttrs t).map (fun a => (es.lookup a.name).getD a.implicitT))).length := by
@@ -365,6 +383,74 @@ theorem C17_get_named {t : OType} {es : List (String × Val)} {h : Val} (hw : WF
     exact List.length_filter_le _ _
   rw [get_pos hw.nodup hw.tailOpt hk ha, den_trim hw.god, den_full (by omega), List.getElem?_map, ha]
   rfl
+
+/-- attribute types in which `NotUndef` does not occur: `typeAndInit` leaves them as they are -/
+def Ty.plain : Ty → Bool
+  | .opt t => t.plain
+  | .notUndef _ => false
+  | .variant a b => a.plain && b.plain
+  | .array t => t.plain
+  | _ => true
+
+theorem tyInit_plain {t : Ty} (h : t.plain = true) : tyInit t = t := by
+  induction t with
+  | opt t ih => simp only [Ty.plain] at h; simp [tyInit, ih h]
+  | notUndef t _ => simp [Ty.plain] at h
+  | variant a b iha ihb =>
+    simp only [Ty.plain, Bool.and_eq_true] at h
+    simp [tyInit, iha h.1, ihb h.2]
+  | array t ih => simp only [Ty.plain] at h; simp [tyInit, ih h]
+  | _ => rfl
+
+theorem mem_of_lookup {es : List (String × Val)} {n : String} {v : Val} (h : es.lookup n = some v) : (n, v) ∈ es := by
+  induction es with
+  | nil => simp at h
+  | cons e es ih =>
+    obtain ⟨k, w⟩ := e
+    simp only [List.lookup] at h
+    split at h
+    · rename_i heq
+      simp only [beq_iff_eq] at heq
+      cases h
+      simp [heq]
+    · exact List.mem_cons_of_mem _ (ih h)
+
+/-- for attribute types without `NotUndef` the init Struct admits exactly what the attribute types admit -/
+theorem coerceOk_of_plain {t : OType} {es : List (String × Val)} (hw : WF t)
+    (hp : ∀ a ∈ posAttrs t, a.ty.plain = true) (hm : namedMatches (attrInfo t) es = true) :
+    coerceOk (attrInfo t) es = true := by
+  unfold namedMatches at hm
+  unfold coerceOk
+  simp only [Bool.and_eq_true, List.all_eq_true, attrInfo_attrs] at hm ⊢
+  intro a ha
+  cases hl : es.lookup a.name with
+  | none => rfl
+  | some v =>
+    obtain ⟨i, hi⟩ := List.getElem?_of_mem ha
+    have := hm.1 _ (mem_of_lookup hl)
+    simp only [find_of_nodup hw.nodup hi, tyInit_plain (hp a ha)] at this
+    exact this
+
+/-- the statement of `C17_get_named` as it stood for the alphabet without `NotUndef` -/
+theorem C17_get_named_plain {t : OType} {es : List (String × Val)} {h : Val} (hw : WF t)
+    (hp : ∀ a ∈ posAttrs t, a.ty.plain = true) (hm : namedMatches (attrInfo t) es = true)
+    {i : Nat} {a : Attr} (ha : (posAttrs t)[i]? = some a) :
+    ∃ o, newNamed t es h = .ok o ∧ get o a.name = .ok (some ((es.lookup a.name).getD a.implicitT)) :=
+  C17_get_named hw hm (coerceOk_of_plain hw hp hm) ha
+
+def lvNU : Level :=
+  { id := 0, attrs := [{ name := "a", ty := .notUndef .int, kind := .normal, value := none }], equality := none,
+    includeType := true, serialization := none }
+
+/-- the quirk the second hypothesis of `C17_get_named` is about, replayed in the model: for an attribute of type
+    `NotUndef[Integer]` the init Struct of the named constructor says `Optional[Integer]` (objecttype.go typeAndInit), so
+    `new(T, {a => undef})` passes the dispatcher and fails in the creator (INSTANCE_DOES_NOT_RESPOND), while the positional
+    `new(T, undef)` is refused by the dispatcher (ILLEGAL_ARGUMENTS).  Both are refused: no ill-typed object exists. -/
+theorem C17_named_notundef_undef :
+    namedMatches (attrInfo [lvNU]) [("a", .undef)] = true ∧
+    newNamed [lvNU] [("a", .undef)] (.hash "") = .error .instanceDoesNotRespond ∧
+    newPos [lvNU] [.undef] = .error .illegalArguments := by
+  refine ⟨by decide, by decide, by decide⟩
 
 /-! ### rebuilding an object from its init-hash yields an equal object -/
 
@@ -406,6 +492,21 @@ theorem namedMatches_initHash {o : Obj} (hw : WF o.typ) (hv : Valid o) :
         simp [h1, h2]
       simp [lookup_mvh hw.nodup hi, hval, hns]
 
+theorem coerceOk_initHash {o : Obj} (hw : WF o.typ) (hv : Valid o) : coerceOk (attrInfo o.typ) (initHash o) = true := by
+  unfold coerceOk initHash
+  simp only [List.all_eq_true, attrInfo_attrs]
+  intro a ha
+  obtain ⟨i, hi⟩ := List.getElem?_of_mem ha
+  rw [lookup_mvh hw.nodup hi]
+  cases hval : o.values[i]? with
+  | none => rfl
+  | some v =>
+    simp only [Option.bind_some]
+    by_cases hs : skips a v = true
+    · simp [hs]
+    · simp only [hs, Bool.false_eq_true, if_false]
+      exact allInst_get hv.inst hi hval
+
 theorem C17_inithash {o : Obj} (h : Val) (hw : WF o.typ) (hv : Valid o) :
     ∃ o', newNamed o.typ (initHash o) h = .ok o' ∧ o'.typ = o.typ ∧
       equals o' o = .ok true ∧ equals o o' = .ok true ∧
@@ -414,7 +515,7 @@ theorem C17_inithash {o : Obj} (h : Val) (hw : WF o.typ) (hv : Valid o) :
   simp only at hw hv ⊢
   have hlen : vs.length ≤ (posAttrs t).length := allInst_length hv.inst
   have hm := namedMatches_initHash hw hv
-  have hres := named_result (h := h) hm (map_mvh_eq_den hw.nodup hw.god hlen)
+  have hres := named_result (h := h) hm (coerceOk_initHash (o := ⟨t, vs⟩) hw hv) (map_mvh_eq_den hw.nodup hw.god hlen)
   have hdl : (den (posAttrs t) vs).length = (posAttrs t).length := den_length hlen
   have hden : den (posAttrs t) (trim (requiredCount t) (posAttrs t) (den (posAttrs t) vs)) = den (posAttrs t) vs := by
     rw [den_trim hw.god, den_full (by omega)]
